@@ -98,3 +98,177 @@ Proof.
 Qed.
 
 End Crash.
+
+Lemma firstn_In_l {A} k (l : list A) x : In x (firstn k l) -> In x l.
+Proof. revert k. induction l as [|a l IH]; intros k H; destruct k; simpl in *; auto; try contradiction. destruct H; eauto. Qed.
+
+(** ** Crash points of longer operations *)
+Section Crash2.
+Variable apply : sroot -> block -> option sroot.
+Variable spent : sroot -> txid -> bool.
+Hypothesis apply_fresh : forall r b r', apply r b = Some r' ->
+  NoDup (txs b) /\ forall t, In t (txs b) -> spent r t = false.
+Hypothesis apply_spent : forall r b r' t, apply r b = Some r' ->
+  spent r' t = spent r t || mem t (txs b).
+Variable U : block -> Prop.
+Hypothesis U_inj : forall a b, U a -> U b -> hash_field a = hash_field b -> a = b.
+Variable g : block.
+Notation Inv := (Inv apply spent U g).
+
+(** a store that differs from a consistent one only by additional state markers, receipts and
+    additional (never replaced) blocks *)
+Definition frame_of (n : node) (d' : store) : Prop :=
+  (forall k, (forall r, k <> KStateMarker r) -> (forall i m, k <> KReceipts i m) -> (forall id, k <> KBlock id) ->
+             d' k = dur n k) /\
+  (forall id x, get_block (dur n) id = Some x -> get_block d' id = Some x) /\
+  (forall id x, d' (KBlock id) = Some (VBlock x) -> U x /\ hash_field x = id) /\
+  (forall r, has_state_marker (dur n) r = true -> has_state_marker d' r = true) /\
+  (forall i m, has_receipts (dur n) i m = true -> has_receipts d' i m = true).
+
+Lemma frame_of_refl n : Inv n -> frame_of n (dur n).
+Proof.
+  intros I. split; [auto|]. split; [auto|]. split; [apply (i_univ _ _ _ _ _ I)|]. split; auto.
+Qed.
+
+Theorem restart_frame f7 n d' :
+  Inv n -> frame_of n d' ->
+  exists r, restart f7 d' = Some (StartOk r) /\ Inv r /\ best r = best n /\ dur r = d' /\
+            has_state_marker (dur r) (root (best r)) = true.
+Proof.
+  intros I (Hf & GB & HU & Hm & Hr).
+  set (n' := mkNode d' (best n) (root (best n)) [] [] 0 [] []).
+  assert (I' : Inv n').
+  { eapply (inv_frame2 apply spent U g n n'); simpl; auto.
+    - symmetry. apply (i_sdb _ _ _ _ _ I).
+    - contradiction. }
+  unfold restart.
+  assert (E1 : get_latest d' = Some (no (best n))).
+  { unfold get_latest. rewrite Hf by (intros; discriminate). apply (i_latest _ _ _ _ _ I). }
+  rewrite E1.
+  pose proof (i_best _ _ _ _ _ I') as Hb. simpl in Hb. unfold mainb in Hb. rewrite Hb.
+  unfold get_marker. rewrite Hf by (intros; discriminate). rewrite (i_nomarker _ _ _ _ _ I).
+  exists n'. split; [reflexivity|]. split; [exact I'|]. split; [reflexivity|]. split; [reflexivity|].
+  simpl. eapply (i_state _ _ _ _ _ I' (no (best n))); simpl; eauto. lia.
+Qed.
+
+(** prefixes of state-commit / receipts / side-store units keep the frame *)
+Definition benign_unit (u : wunit) : Prop :=
+  (exists r, u = state_unit r) \/ (exists b, u = receipts_unit b) \/ (exists b, U b /\ u = store_unit b).
+
+Lemma frame_of_step n d' u : Inv n -> frame_of n d' -> benign_unit u ->
+  (forall b, u = store_unit b -> forall x, get_block d' (hash_field b) = Some x -> x = b) ->
+  frame_of n (apply_unit d' u).
+Proof.
+  intros I (Hf & GB & HU & Hm & Hr) Hu Hsame.
+  destruct Hu as [(r & ->)|[(b & ->)|(b & Ub & ->)]].
+  - split; [|split; [|split; [|split]]].
+    + intros k H1 H2 H3. rewrite state_unit_frame by auto. auto.
+    + intros id x Hx. rewrite (get_block_ext d' (apply_unit d' (state_unit r))); auto;
+        try (apply state_unit_frame; intros; discriminate).
+    + intros id x. rewrite state_unit_frame by (intros; discriminate). auto.
+    + intros r0 H. rewrite state_unit_marker. rewrite (Hm _ H). apply orb_true_r.
+    + intros i m H. unfold has_receipts. rewrite state_unit_frame by (intros; discriminate). apply Hr. exact H.
+  - split; [|split; [|split; [|split]]].
+    + intros k H1 H2 H3. rewrite receipts_unit_frame by auto. auto.
+    + intros id x Hx. rewrite (get_block_ext d' (apply_unit d' (receipts_unit b))); auto;
+        try (apply receipts_unit_frame; intros; discriminate).
+    + intros id x. rewrite receipts_unit_frame by (intros; discriminate). auto.
+    + intros r0 H. unfold has_state_marker. rewrite receipts_unit_frame by (intros; discriminate). apply Hm. exact H.
+    + intros i m H. rewrite receipts_unit_has. rewrite (Hr _ _ H). apply orb_true_r.
+  - assert (F : forall k, (forall id, k <> KBlock id) -> apply_unit d' (store_unit b) k = d' k).
+    { intros k Hk. rewrite store_unit_reads. destruct (dkey_eqb (KBlock (hash_field b)) k) eqn:E; auto.
+      apply dkey_eqb_spec in E. exfalso. eapply Hk; eauto. }
+    split; [|split; [|split; [|split]]].
+    + intros k H1 H2 H3. rewrite F by auto. auto.
+    + intros id x Hx. apply get_block_store_mono; auto. 
+    + intros id x. rewrite store_unit_reads. simpl. destruct (hash_field b =? id) eqn:E.
+      * intros H; inversion H; subst. apply N.eqb_eq in E. auto.
+      * apply HU.
+    + intros r0 H. unfold has_state_marker. rewrite F by (intros; discriminate). apply Hm. exact H.
+    + intros i m H. unfold has_receipts. rewrite F by (intros; discriminate). apply Hr. exact H.
+Qed.
+
+Lemma frame_same_block n d' b x : Inv n -> frame_of n d' -> U b -> get_block d' (hash_field b) = Some x -> x = b.
+Proof.
+  intros I (_ & _ & HU & _) Ub Hx. unfold get_block in Hx.
+  destruct (d' (KBlock (hash_field b))) as [[]|] eqn:E; try discriminate.
+  destruct (hash_field b0 =? hash_field b) eqn:E2; [|discriminate]. inversion Hx; subst.
+  destruct (HU _ _ E) as (Ux & Hh). apply U_inj; auto.
+Qed.
+
+Lemma frame_of_replay n us : Inv n -> Forall benign_unit us -> forall d', frame_of n d' -> frame_of n (replay d' us).
+Proof.
+  intros I Hus. induction Hus as [|u us Hu _ IH]; intros d' F; simpl; auto.
+  apply IH. apply frame_of_step; auto.
+  intros b -> x Hx. destruct Hu as [(r & E)|[(b' & E)|(b' & Ub & E)]]; try discriminate.
+  - unfold receipts_unit, store_unit in E. destruct (txs b'); inversion E.
+  - inversion E; subst. eapply frame_same_block; eauto.
+Qed.
+
+(** crash_recover_inv / crash_best_legit / state_available for every crash point of a sequence of
+    state commits, receipt writes and side-branch stores — the write units of an orphan-resolution
+    run on a side branch and of the rollback/rollforward part of a reorganisation (everything up
+    to the reorg marker): the node restarts on the old tip and the invariant holds. *)
+Theorem crash_benign_prefix_inv f7 n us k :
+  Inv n -> Forall benign_unit us ->
+  exists r, restart f7 (crash k (dur n) us) = Some (StartOk r) /\ Inv r /\ best r = best n /\
+            has_state_marker (dur r) (root (best r)) = true.
+Proof.
+  intros I Hus. unfold crash.
+  assert (Hpre : Forall benign_unit (firstn k us)).
+  { apply Forall_forall. intros u Hu. eapply Forall_forall in Hus; eauto. eapply firstn_In_l; eauto. }
+  destruct (restart_frame f7 n _ I (frame_of_replay n _ I Hpre _ (frame_of_refl n I))) as (r & R1 & R2 & R3 & _ & R5).
+  exists r. auto.
+Qed.
+
+End Crash2.
+
+Section Crash3.
+Variable apply : sroot -> block -> option sroot.
+Variable spent : sroot -> txid -> bool.
+Hypothesis apply_fresh : forall r b r', apply r b = Some r' ->
+  NoDup (txs b) /\ forall t, In t (txs b) -> spent r t = false.
+Hypothesis apply_spent : forall r b r' t, apply r b = Some r' ->
+  spent r' t = spent r t || mem t (txs b).
+Variable U : block -> Prop.
+Hypothesis U_inj : forall a b, U a -> U b -> hash_field a = hash_field b -> a = b.
+Variable g : block.
+Notation Inv := (Inv apply spent U g).
+
+(** a run of main-chain connections (the starting block and the parked descendants it pulls in) *)
+Fixpoint connect_seq (n : node) (bs : list block) : option node :=
+  match bs with
+  | [] => Some n
+  | b :: r => match connect_main apply n b with Some n1 => connect_seq n1 r | None => None end
+  end.
+
+Theorem crash_main_run_inv f7 bs : forall n n' k,
+  Inv n -> linked (best n) bs -> (forall b, In b bs -> U b) -> connect_seq n bs = Some n' ->
+  exists r, restart f7 (crash k (dur n) (concat (map connect_units bs))) = Some (StartOk r) /\ Inv r /\
+            (best r = best n \/ In (best r) bs) /\ has_state_marker (dur r) (root (best r)) = true.
+Proof.
+  induction bs as [|b rest IH]; intros n n' k I Hl HU Hc.
+  - simpl. unfold crash. rewrite firstn_nil. simpl.
+    destruct (restart_inv apply spent U g f7 n I) as (r & R1 & R2 & R3 & R4 & R5). exists r. auto.
+  - simpl in Hc. destruct (connect_main apply n b) as [n1|] eqn:Ec; [|discriminate].
+    destruct Hl as (Hp & Hn & Hl').
+    assert (Ub : U b) by (apply HU; left; reflexivity).
+    destruct (connect_main_inv apply spent apply_fresh apply_spent U U_inj g _ _ _ I Ub Hp Hn Ec) as (I1 & B1 & _).
+    destruct (connect_main_units apply _ _ _ Ec) as (_ & D1).
+    cbn [concat map].
+    destruct (Nat.le_gt_cases k (length (connect_units b))) as [Hle|Hgt].
+    + unfold crash. rewrite firstn_app. replace (k - length (connect_units b))%nat with 0%nat by lia.
+      simpl firstn at 2. rewrite app_nil_r.
+      destruct (crash_connect_inv apply spent apply_fresh apply_spent U U_inj g f7 n b n1 k I Ub Hp Hn Ec)
+        as (r & R1 & R2 & R3 & R4).
+      exists r. unfold crash in R1. split; [exact R1|]. split; [exact R2|]. split; [|exact R4].
+      destruct R3 as [->| ->]; [left; reflexivity|right; left; reflexivity].
+    + unfold crash. rewrite firstn_app, firstn_all2 by lia. rewrite replay_app, <- D1.
+      rewrite <- B1 in Hl'.
+      destruct (IH n1 n' (k - length (connect_units b))%nat I1 Hl' ltac:(intros; apply HU; right; auto) Hc)
+        as (r & R1 & R2 & R3 & R4).
+      exists r. unfold crash in R1. split; [exact R1|]. split; [exact R2|]. split; [|exact R4].
+      destruct R3 as [E|E]; [right; left; congruence|right; right; exact E].
+Qed.
+
+End Crash3.
